@@ -176,6 +176,28 @@ def check_yuv_output(ck, key, ctx, it, st, yuv, in_dims, in_name, ssx, ssy, loop
         kernels.append(canon(val))
     return kernels
 
+def every_sample_written(it, planes, j, st_pc, ssx=0, ssy=0):
+    """None when the single store summary of plane j covers every sample of the plane (unconditional, or guarded by the
+    write-on-change idiom whose lemma holds); otherwise the reason.  Used by C02 / C08 / C09: a value-level claim about
+    'the stored code' is about every sample only if every sample is stored."""
+    pv, cfg, obj, buf = planes[j]
+    if len(buf.stores) != 1:
+        return f"{len(buf.stores)} store summaries"
+    s = buf.stores[0]
+    if len(s.qvars) != 2:
+        return 'plane store is not a two-dimensional summary'
+    (x, xlo, xhi), (y, ylo, yhi) = s.qvars
+    extra = [cnd for cnd in s.guard if not _is_range(cnd, s.qvars)]
+    if not extra:
+        return None
+    if j == 0:
+        return f"luma store is conditional: {extra[0]}"
+    g = [dict(c) for (_, c, _, _) in planes]
+    want1 = expected_plane_index(g, 1, y, x, ssx, ssy)
+    colx = X.binop('shr', x, U(ssx)) if ssx else x
+    ok, why = write_on_change(extra, s, it.rec.loops, it, st_pc, want1, g[1]['stride'], colx)
+    return None if ok else why
+
 def _is_range(cnd, qvars):
     if cnd.op == 'lt':
         for q, lo, hi in qvars:
